@@ -16,6 +16,8 @@ import (
 	"log"
 	"net/http"
 	"os"
+	"runtime"
+	"sort"
 	"strconv"
 	"strings"
 	"sync"
@@ -231,6 +233,60 @@ func writeVerifFrame(st *serverTester, tok string) {
 }
 
 func init() {
+	// h2conc max=<n> frames=<tok,...>: the client writes the whole script WITHOUT waiting for quiescence while
+	// every handler marshals the fingerprint repeatedly; reports the distinct values each request observed.
+	verifExecs["h2conc"] = func(t *testing.T, a []string) string {
+		var max uint64
+		var toks []string
+		for _, x := range a {
+			if strings.HasPrefix(x, "max=") {
+				max, _ = strconv.ParseUint(x[4:], 10, 64)
+			} else if strings.HasPrefix(x, "frames=") {
+				toks = strings.Split(x[7:], ",")
+			}
+		}
+		var mu sync.Mutex
+		seen := map[uint32][]string{}
+		st, _ := newVerifTester(t, func(w http.ResponseWriter, r *http.Request) {
+			d, ok := metadata.FromContext(r.Context())
+			if !ok {
+				return
+			}
+			id := w.(*responseWriter).rws.stream.id
+			var vals []string
+			last := ""
+			for i := 0; i < 400; i++ {
+				v := fmt.Sprintf("%x", d.HTTP2Frames.Marshal(uint(max)))
+				if v != last {
+					vals = append(vals, v)
+					last = v
+				}
+				if i%8 == 0 {
+					runtime.Gosched()
+				}
+			}
+			mu.Lock()
+			seen[id] = vals
+			mu.Unlock()
+		})
+		st.writePreface()
+		for _, tk := range toks {
+			writeVerifFrame(st, tk)
+		}
+		st.sync()
+		mu.Lock()
+		defer mu.Unlock()
+		var ids []int
+		for id := range seen {
+			ids = append(ids, int(id))
+		}
+		sort.Ints(ids)
+		var parts []string
+		for _, id := range ids {
+			parts = append(parts, fmt.Sprintf("R%d=%s", id, strings.Join(seen[uint32(id)], ",")))
+		}
+		return strings.Join(parts, " ")
+	}
 	// h2fp max=<n> frames=<tok,tok,...>: scripted accepted frame sequence; every handler reports
 	// Marshal(max) as its request sees it; finally the connection's record is marshalled once more.
 	verifExecs["h2fpm"] = func(t *testing.T, a []string) string { return verifExecs["h2fp"](t, a) }
